@@ -3,7 +3,7 @@ GridWorld.functional_step, with every ChoiceRng resolution of every random pick 
 from collections import deque
 
 from .choice import ChoiceRng, RecordingRng, explore
-from .desc import sdesc
+from .desc import hidden_fp, sdesc
 
 
 def reset_outcomes(env, limit, max_dev=3):
@@ -65,28 +65,44 @@ class Graph:
 
 
 def bfs(env, inits, on_state=None, on_edge=None, max_states=200000, actions=None, max_outcomes=4096,
-        expand_terminal=False, key_fn=sdesc, action_filter=None, dev_bound=None):
+        expand_terminal=False, key_fn=sdesc, action_filter=None, dev_bound=None, lineages=1):
     """inits: iterable of State.  on_state(key, state, graph) and on_edge(key, state, action, choices, key2,
-    state2, reward, done, graph) may return a message to stop-and-report (collected in the returned list)."""
+    state2, reward, done, graph) may return a message (collected in the returned list as
+    (key, action name, choices, message, lineage id of the source object))."""
     g = Graph()
     problems = []
     frontier = deque()
     depth = {}
-    queued = set()
+    queued = {}  # key -> number of distinct objects (lineages) queued for expansion
+    g.lineage = {}  # lineage id -> (parent lineage id | None, root key | None, action name, choices)
+    next_id = [0]
+
+    def new_id(parent, root, a, ch):
+        next_id[0] += 1
+        g.lineage[next_id[0]] = (parent, root, a, ch)
+        return next_id[0]
+
+    def ext(k, st):
+        # the search key = canonical descriptor + any hidden per-object attribute (see desc.hidden_fp)
+        h = hidden_fp(st)
+        return k if not h else (k, h)
+
     for st in inits:
         k = key_fn(st)
-        if k not in g.parent:
-            g.parent[k] = None
-            depth[k] = 0
-            queued.add(k)
-            frontier.append((k, st))
+        kk = ext(k, st)
+        if kk not in g.parent:
+            g.parent[kk] = None
+            depth[kk] = 0
+            queued[kk] = 1
+            frontier.append((k, st, new_id(None, k, None, None)))
             if on_state:
                 m = on_state(k, st, g)
                 if m:
-                    problems.append((k, None, None, m))
+                    problems.append((k, None, None, m, next_id[0]))
     actions = list(actions or env.action_space.actions)
     while frontier:
-        k, st = frontier.popleft()
+        k, st, oid = frontier.popleft()
+        kk = ext(k, st)
         for a in (actions if action_filter is None else action_filter(k, actions)):
 
             def run(rng, st=st, a=a):
@@ -99,35 +115,50 @@ def bfs(env, inits, on_state=None, on_edge=None, max_states=200000, actions=None
             for choices, res, _ in explore(run, dev_bound=dev_bound, max_runs=max_outcomes):
                 g.transitions += 1
                 if isinstance(res[0], str):
-                    problems.append((k, a.name, choices, f'step raised {res[1]}: {res[2]}'))
+                    problems.append((k, a.name, choices, f'step raised {res[1]}: {res[2]}', oid))
                     continue
                 st2, reward, done = res
                 k2 = key_fn(st2)
                 if on_edge:
                     m = on_edge(k, st, a, choices, k2, st2, reward, done, g)
                     if m:
-                        problems.append((k, a.name, choices, m))
-                if k2 not in g.parent:
+                        problems.append((k, a.name, choices, m, oid))
+                kk2 = ext(k2, st2)
+                if kk2 not in g.parent:
                     if len(g.parent) >= max_states:
                         g.capped = True
                         continue
-                    g.parent[k2] = (k, a.name, choices)
-                    depth[k2] = depth[k] + 1
-                    g.max_depth = max(g.max_depth, depth[k2])
+                    g.parent[kk2] = (kk, a.name, choices)
+                    depth[kk2] = depth[kk] + 1
+                    g.max_depth = max(g.max_depth, depth[kk2])
                     if on_state:
                         m = on_state(k2, st2, g)
                         if m:
-                            problems.append((k2, None, None, m))
+                            problems.append((k2, None, None, m, new_id(oid, None, a.name, choices)))
                 if done:
-                    g.terminal.add(k2)
-                # terminality belongs to the edge (bump_into_wall depends on (s, a)): a state is expanded as
-                # soon as it is reached by some non-terminating edge
-                if (not done or expand_terminal) and k2 not in queued:
-                    queued.add(k2)
-                    frontier.append((k2, st2))
+                    g.terminal.add(kk2)
+                # terminality belongs to the edge (bump_into_wall depends on (s, a)): a state is expanded as soon as
+                # it is reached by some non-terminating edge.  `lineages` > 1 expands the same abstract state again
+                # when it is reached through another history: objects keep whatever the implementation cached on them
+                # along the way, so history-dependent behaviour (invisible to the canonical key) meets the same oracles
+                if (not done or expand_terminal) and queued.get(kk2, 0) < lineages:
+                    queued[kk2] = queued.get(kk2, 0) + 1
+                    frontier.append((k2, st2, new_id(oid, None, a.name, choices)))
             if explore.capped:
                 g.capped = True
     return g, problems
+
+
+def lineage_trace(g, oid):
+    """(root key, [(action, choices)...]) of the history that produced the object with this lineage id"""
+    path = []
+    while True:
+        parent, root, a, ch = g.lineage[oid]
+        if parent is None:
+            path.reverse()
+            return root, path
+        path.append({'action': a, 'choices': ch})
+        oid = parent
 
 
 # ---------------------------------------------------------------- whole-configuration exploration
@@ -139,7 +170,7 @@ def scenery_key(key):
     return tuple(tuple((o[0], o[2]) if o[0] in STATIC_TYPES else None for o in row) for row in rows)
 
 
-def explore_configs(names, init_limit, max_states, make_hooks, max_dev=3, group_cap=None):
+def explore_configs(names, init_limit, max_states, make_hooks, max_dev=3, group_cap=None, lineages=1):
     """For each named shipped configuration: enumerate initial states (complete or deviation-bounded), group
     them by static scenery, BFS every group with the hooks from make_hooks(env, name) -> (on_state, on_edge).
     Returns (stats per config, problems) where a problem is a dict with a replayable trace."""
@@ -182,10 +213,13 @@ def explore_configs(names, init_limit, max_states, make_hooks, max_dev=3, group_
             if k not in root_script:
                 root_script[k] = choices
                 states.append(st)
-        g, problems = bfs(env, states, on_state=on_state, on_edge=on_edge, max_states=max_states)
+        g, problems = bfs(env, states, on_state=on_state, on_edge=on_edge, max_states=max_states, lineages=lineages)
         out = []
-        for k, a, ch, msg in problems[:5]:
-            root, path = g.trace(k)
+        for k, a, ch, msg, oid in problems[:5]:
+            root, path = lineage_trace(g, oid)
+            if a is None and path:
+                # a state-invariant problem: the last step of the lineage leads to the offending state
+                pass
             out.append({
                 'config': name,
                 'reset_script': root_script.get(root),
